@@ -96,9 +96,10 @@ def certgen_line(c, universe):
 
 KEYS = ["kR", "kI1", "kI2", "kE", "kR2", "kL"]
 
-def materialise(scens, pkidir, certgen):
+def materialise(scens, pkidir, certgen, fam="rsa"):
+    """fam: the key family of every key pair of the universe - rsa (2048), ec (P-256) or ed (Ed25519)"""
     os.makedirs(pkidir, exist_ok=True)
-    lines = ["key %s rsa" % k for k in KEYS]
+    lines = ["key %s %s" % (k, fam) for k in KEYS]
     done = set()
     universe = [ROOT, INT1, INT2, EVIL, ROOT2]
     for ch, an in scens:
@@ -117,10 +118,10 @@ def materialise(scens, pkidir, certgen):
         raise SystemExit("INFRA: certgen failed: " + p.stderr[-2000:])
     return len(done)
 
-def script_lines(scens, pkidir):
+def script_lines(scens, pkidir, prefix="X"):
     out, meta = [], {}
     for idx, (ch, an) in enumerate(scens):
-        tag = "X%d" % idx
+        tag = "%s%d" % (prefix, idx)
         chain = ",".join(os.path.join(pkidir, cert_name(c) + ".pem") for c in ch)
         ca = ",".join(os.path.join(pkidir, cert_name(c) + ".pem") for c in an)
         out.append("validate chain=%s ca=%s tag=%s" % (chain, ca, tag))
